@@ -191,7 +191,7 @@ theorem c08_pingresp (s : S) (ok : Bool) (hs : s.sock.isSome) :
   obtain ⟨c, hc⟩ := Option.isSome_iff_exists.mp hs
   simp only [S.step, S.loopRead, S.packetHandle, hc]
   simp only [show ¬ (rcSuccess > 0) by decide, show ¬ (rcSuccess = rcAgain) by decide, if_false]
-  split <;> rfl
+  rfl
 
 /-! ## serviced histories: the network loop runs loop_misc() at least every d milliseconds -/
 
